@@ -10,13 +10,11 @@ Inductive res (A : Type) : Type :=
 | Ok (a : A)
 | Err (e : string)        (* a numbat RuntimeError of the given kind *)
 | Wrong                   (* reference: ill-typed / ill-scoped; machine: Rust panic *)
-| Fuel                    (* out of fuel *)
-| Stale.                  (* reference only: a stale function value was called (see RefSem) *)
+| Fuel.                   (* out of fuel *)
 Arguments Ok {A} a.
 Arguments Err {A} e.
 Arguments Wrong {A}.
 Arguments Fuel {A}.
-Arguments Stale {A}.
 
 Definition bind {A B} (r : res A) (f : A -> res B) : res B :=
   match r with
@@ -24,15 +22,14 @@ Definition bind {A B} (r : res A) (f : A -> res B) : res B :=
   | Err e => Err e
   | Wrong => Wrong
   | Fuel => Fuel
-  | Stale => Stale
   end.
 
-(* value.rs FunctionReference.  The nat in FNormal is a GHOST annotation: the
-   chunk index the name denoted where the reference was created.  The machine
-   never reads it (CallCallable resolves the NAME at call time, vm.rs:988);
-   the reference semantics calls exactly that function. *)
+(* value.rs FunctionReference.  Normal carries the name (for display) and the index of
+   the function's bytecode chunk at the time the reference was created; CallCallable
+   calls that chunk (fix of finding C09-funref-rebound: the name used to be looked up
+   at call time). *)
 Inductive fref : Type :=
-| FNormal (name : string) (ghost_idx : nat)
+| FNormal (name : string) (idx : nat)
 | FForeign (name : string).
 
 Inductive value (Q : Type) : Type :=
@@ -109,7 +106,7 @@ Variable O : ops Q.
 
 Definition fref_eqb (a b : fref) : bool :=
   match a, b with
-  | FNormal x _, FNormal y _ => String.eqb x y      (* derive(PartialEq) on the name; ghost ignored *)
+  | FNormal x i, FNormal y j => String.eqb x y && Nat.eqb i j      (* derive(PartialEq) *)
   | FForeign x, FForeign y => String.eqb x y
   | _, _ => false
   end.
